@@ -178,3 +178,16 @@ package bytesconv
 //@   ensures err != nil ==> this.wlen == old(this.wlen)
 //@ interface network.Writer.Flush(this) err
 
+
+// ---- C17: the percent codec (query arguments) ----
+// Ghost description of "e is the encoding of the byte string qx[0:qn]": qpos[k] is where the token of
+// qx[k] starts in e, qfs is the index of the first source byte that is not copied verbatim (qn if none).
+//@ ghost var qx array
+//@ ghost var qpos array
+//@ ghost var qn int
+//@ ghost var qfs int
+//@ ghost var qk int
+//@ pure func escArg(c int) bool = QuotedArgShouldEscapeTable[c] != 0
+//@ macro argPlain(c) = c != ' ' && !escArg(c)
+//@ macro argTok(e, p, c, pn) = (c == ' ' ==> e[p] == '+' && pn == p + 1) && (c != ' ' && escArg(c) ==> e[p] == '%' && e[p+1] == upperhex[c / 16] && e[p+2] == upperhex[c % 16] && pn == p + 3) && (argPlain(c) ==> e[p] == c && pn == p + 1)
+//@ macro isArgEncoding(e) = qn >= 0 && qpos[0] == 0 && qpos[qn] == len(e) && 0 <= qfs && qfs <= qn && forall(k, 0, qn, 0 <= qx[k] && qx[k] <= 255 && argTok(e, qpos[k], qx[k], qpos[k+1])) && forall(k, 0, qn + 1, qpos[k] + (qn - k) <= len(e) && k <= qpos[k]) && forall(k, 0, qfs + 1, qpos[k] == k) && forall(k, 0, qfs, argPlain(qx[k])) && (qfs < qn ==> !argPlain(qx[qfs]))
